@@ -7,7 +7,7 @@
     of the three coefficients. *)
 From Coq Require Import List Arith Bool String Ascii ZArith Reals.
 From Naunet Require Import Lib.ListX Lib.PyStr Model.CExpr Model.RateGas Model.Decode
-     Proofs.RateSem Proofs.RateKida Proofs.RateUmist Proofs.RateLeeds Proofs.RateUcl Proofs.RateValid
+     Proofs.RateSem Proofs.RateKida Proofs.RateUmist Proofs.RateLeeds Proofs.RateUcl Proofs.RateValid Proofs.ReplaceBridge
      Wire.WDecode Wire.WRate.
 From NaunetGen Require Import Tables.
 Import ListNotations.
@@ -137,6 +137,23 @@ Theorem unbeautified_is_not_c :
   end.
 Proof. exact native_unbeautified_refuted_lemma. Qed.
 Print Assumptions unbeautified_is_not_c.
+
+(* the bridge between the printed text and the atom strings the theorems above are about:
+   Python's four str.replace calls on the text with the magnitudes and identifiers written out
+   give the text of the model's clean-up on atom strings, as soon as every magnitude / identifier
+   starts and ends with a non-sign character and holds no two adjacent signs (every repr of a
+   finite float, every C identifier) *)
+Theorem beautify_bridge : forall mag name s, atoms_ok mag name s ->
+  flatten_with mag name (beautify s) = py_beautify (flatten_with mag name s).
+Proof. exact beautify_bridge_lemma. Qed.
+Print Assumptions beautify_bridge.
+
+Theorem repr_shapes_are_atoms :
+  forallb (fun t => atom_ok (chars t))
+    ["1e-10"; "2.5e-09"; "0.5"; "1.23e+300"; "5e-324"; "123456789.123"; "30450.0"; "Tgas"; "eb_GCOI"; "gdens2"; "zeta_cr"]%string = true /\
+  forallb (fun t => atom_ok (chars t)) ["-1.0"; "1e--5"; "inf-"; ""]%string = false.
+Proof. vm_compute. split; reflexivity. Qed.
+Print Assumptions repr_shapes_are_atoms.
 
 (* tie to the current /repo: the type codes used above are those of the live enum, and the
    native class passes its string through the sign clean-up *)
